@@ -1,50 +1,103 @@
-//! Replay driver for C10 (unit U-scmcap): the REAL ScmSocket::send_listeners / receive_listeners over a real
-//! unix socket pair, with n <= MAX_FDS_OUT listeners. Required: the successor receives every (address, fd) pair.
-//! usage: c10_scm capacity
+//! Bounded native enumeration for C10 (unit N-scm): the fd-passing leg of a worker hand-over with REAL sockets through
+//! the REAL sozu_command_lib::scm_socket::ScmSocket. usage: c10_scm quick | thorough
+//! For every listener set with h http, s https, t tcp and u udp listeners (each 0..=N, bound on loopback ephemeral
+//! ports, IPv4 and IPv6 alternating when available), send_listeners on one end of a socketpair and receive_listeners on
+//! the other; then
+//!   - the received tables have the same lengths and the same addresses, in the same protocol tables;
+//!   - for EVERY received (address, fd): getsockname(fd) == address and the socket has the table's type (stream for
+//!     http / https / tcp, datagram for udp) — the successor looks the fd up by address and starts accepting on it;
+//!   - Listeners::get_http / get_https / get_tcp / get_udp hand out, for an address, the fd bound to that address.
 use std::{
-    net::SocketAddr,
-    os::fd::{AsRawFd, IntoRawFd},
-    os::unix::net::UnixStream,
+    net::{SocketAddr, TcpListener, UdpSocket},
+    os::unix::{io::{AsRawFd, FromRawFd, IntoRawFd, RawFd}, net::UnixStream},
 };
 
-use sozu_command_lib::scm_socket::{Listeners, ScmSocket, MAX_FDS_OUT};
+use sozu_command_lib::scm_socket::{Listeners, ScmSocket};
 
-extern "C" { #[link_name = "close"] fn libc_close(fd: i32) -> i32; }
-
-fn roundtrip(n: usize, v6: bool) -> Result<bool, String> {
-    let (a, b) = UnixStream::pair().map_err(|e| e.to_string())?;
-    let tx = ScmSocket::new(a.into_raw_fd()).map_err(|e| e.to_string())?;
-    let rx = ScmSocket::new(b.into_raw_fd()).map_err(|e| e.to_string())?;
-    let devnull = std::fs::File::open("/dev/null").map_err(|e| e.to_string())?;
-    let mut l = Listeners::default();
-    for i in 0..n {
-        let addr: SocketAddr = if v6 {
-            format!("[2001:db8:aaaa:bbbb:cccc:dddd:eeee:{:x}]:{}", 0x1000 + i, 50000 + i).parse().unwrap()
-        } else {
-            format!("192.168.{}.{}:{}", 100 + i / 100, 100 + i % 100, 50000 + i).parse().unwrap()
-        };
-        let fd = devnull.as_raw_fd();
-        match i % 4 { 0 => l.http.push((addr, fd)), 1 => l.tls.push((addr, fd)), 2 => l.tcp.push((addr, fd)), _ => l.udp.push((addr, fd)) }
+fn local_addr_of(fd: RawFd, udp: bool) -> Result<SocketAddr, String> {
+    // borrow the fd: std's wrappers are the portable getsockname; into_raw_fd gives it back without closing
+    if udp {
+        let s = unsafe { UdpSocket::from_raw_fd(fd) };
+        let r = s.local_addr().map_err(|e| e.to_string());
+        let _ = s.into_raw_fd();
+        r
+    } else {
+        let s = unsafe { TcpListener::from_raw_fd(fd) };
+        let r = s.local_addr().map_err(|e| e.to_string());
+        let _ = s.into_raw_fd();
+        r
     }
-    tx.send_listeners(&l).map_err(|e| format!("send_listeners: {e}"))?;
-    let got = rx.receive_listeners().map_err(|e| format!("receive_listeners: {e}"))?;
-    // close what we received so that the driver itself does not run out of descriptors
-    for t in [&got.http, &got.tls, &got.tcp, &got.udp] { for (_, fd) in t.iter() { unsafe { libc_close(*fd); } } }
-    let same_addrs = |x: &Vec<(SocketAddr, i32)>, y: &Vec<(SocketAddr, i32)>| x.len() == y.len() && x.iter().zip(y).all(|(p, q)| p.0 == q.0);
-    Ok(same_addrs(&got.http, &l.http) && same_addrs(&got.tls, &l.tls) && same_addrs(&got.tcp, &l.tcp) && same_addrs(&got.udp, &l.udp))
+}
+fn is_dgram(fd: RawFd) -> bool {
+    // a datagram socket cannot accept(): TcpListener::accept on it fails with EOPNOTSUPP, while set_nonblocking + accept
+    // on a stream listener gives WouldBlock
+    let s = unsafe { TcpListener::from_raw_fd(fd) };
+    let _ = s.set_nonblocking(true);
+    let r = s.accept();
+    let _ = s.into_raw_fd();
+    match r { Ok(_) => false, Err(e) => e.kind() != std::io::ErrorKind::WouldBlock }
+}
+
+fn bind_tcp(i: usize) -> TcpListener {
+    if i % 2 == 1 { if let Ok(l) = TcpListener::bind("[::1]:0") { return l; } }
+    TcpListener::bind("127.0.0.1:0").expect("bind tcp")
+}
+fn bind_udp(i: usize) -> UdpSocket {
+    if i % 2 == 1 { if let Ok(l) = UdpSocket::bind("[::1]:0") { return l; } }
+    UdpSocket::bind("127.0.0.1:0").expect("bind udp")
+}
+
+fn run(h: usize, s: usize, t: usize, u: usize) -> Result<(), String> {
+    let (a, b) = UnixStream::pair().map_err(|e| e.to_string())?;
+    let tx = ScmSocket::new(a.into_raw_fd()).map_err(|e| format!("driver: {e}"))?;
+    let rx = ScmSocket::new(b.into_raw_fd()).map_err(|e| format!("driver: {e}"))?;
+    let http: Vec<TcpListener> = (0..h).map(bind_tcp).collect();
+    let tls: Vec<TcpListener> = (0..s).map(|i| bind_tcp(i + 1)).collect();
+    let tcp: Vec<TcpListener> = (0..t).map(bind_tcp).collect();
+    let udp: Vec<UdpSocket> = (0..u).map(bind_udp).collect();
+    let sent = Listeners {
+        http: http.iter().map(|l| (l.local_addr().unwrap(), l.as_raw_fd())).collect(),
+        tls: tls.iter().map(|l| (l.local_addr().unwrap(), l.as_raw_fd())).collect(),
+        tcp: tcp.iter().map(|l| (l.local_addr().unwrap(), l.as_raw_fd())).collect(),
+        udp: udp.iter().map(|l| (l.local_addr().unwrap(), l.as_raw_fd())).collect(),
+    };
+    tx.send_listeners(&sent).map_err(|e| format!("send_listeners failed: {e}"))?;
+    let mut got = rx.receive_listeners().map_err(|e| format!("receive_listeners failed: {e}"))?;
+    let res = (|| {
+        for (name, st, gt, dgram) in [("http", &sent.http, &got.http, false), ("https", &sent.tls, &got.tls, false), ("tcp", &sent.tcp, &got.tcp, false), ("udp", &sent.udp, &got.udp, true)] {
+            let sa: Vec<SocketAddr> = st.iter().map(|x| x.0).collect();
+            let ga: Vec<SocketAddr> = gt.iter().map(|x| x.0).collect();
+            if sa != ga { return Err(format!("{name} table: sent addresses {sa:?}, received {ga:?}")); }
+            for (addr, fd) in gt.iter() {
+                let real = local_addr_of(*fd, dgram)?;
+                if real != *addr { return Err(format!("{name} listener {addr} was handed the socket bound to {real}")); }
+                if is_dgram(*fd) != dgram { return Err(format!("{name} listener {addr} was handed a {} socket", if dgram { "stream" } else { "datagram" })); }
+            }
+        }
+        Ok(())
+    })();
+    // the lookup the successor does
+    let res = res.and_then(|_| {
+        for (addr, _) in sent.http.iter() { match got.get_http(addr) { Some(fd) => { let r = local_addr_of(fd, false)?; if r != *addr { return Err(format!("get_http({addr}) hands out the socket bound to {r}")); } unsafe { drop(TcpListener::from_raw_fd(fd)); } } None => return Err(format!("get_http({addr}) is None")) } }
+        for (addr, _) in sent.tls.iter() { match got.get_https(addr) { Some(fd) => { let r = local_addr_of(fd, false)?; if r != *addr { return Err(format!("get_https({addr}) hands out the socket bound to {r}")); } unsafe { drop(TcpListener::from_raw_fd(fd)); } } None => return Err(format!("get_https({addr}) is None")) } }
+        for (addr, _) in sent.tcp.iter() { match got.get_tcp(addr) { Some(fd) => { let r = local_addr_of(fd, false)?; if r != *addr { return Err(format!("get_tcp({addr}) hands out the socket bound to {r}")); } unsafe { drop(TcpListener::from_raw_fd(fd)); } } None => return Err(format!("get_tcp({addr}) is None")) } }
+        for (addr, _) in sent.udp.iter() { match got.get_udp(addr) { Some(fd) => { let r = local_addr_of(fd, true)?; if r != *addr { return Err(format!("get_udp({addr}) hands out the socket bound to {r}")); } unsafe { drop(UdpSocket::from_raw_fd(fd)); } } None => return Err(format!("get_udp({addr}) is None")) } }
+        Ok(())
+    });
+    got.close();
+    unsafe { drop(UnixStream::from_raw_fd(tx.raw_fd())); drop(UnixStream::from_raw_fd(rx.raw_fd())); }
+    res
 }
 
 fn main() {
-    for v6 in [false, true] {
-        for n in 1..=MAX_FDS_OUT {
-            let r = roundtrip(n, v6);
-            if !matches!(r, Ok(true)) {
-                let input = format!("{n} listeners (<= MAX_FDS_OUT = {MAX_FDS_OUT}), {} addresses, spread over http/tls/tcp/udp", if v6 { "IPv6" } else { "IPv4" });
-                let observed = match r { Ok(_) => "received listener tables differ from the sent ones".to_string(), Err(e) => e };
-                println!("{{\"found\": true, \"scenario\": \"capacity\", \"input\": {input:?}, \"observed\": {observed:?}, \"required\": \"every listener set up to MAX_FDS_OUT round-trips through send_listeners / receive_listeners\"}}");
-                return;
-            }
-        }
-    }
-    println!("{{\"found\": false, \"scenario\": \"capacity\", \"input\": \"\", \"observed\": \"\", \"required\": \"\"}}");
+    let tier = std::env::args().nth(1).unwrap_or_else(|| "quick".into());
+    let top: usize = if tier == "thorough" { 4 } else { 2 };
+    let (mut n, mut nontrivial, mut fails): (u64, u64, Vec<(String, String)>) = (0, 0, Vec::new());
+    'all: for h in 0..=top { for s in 0..=top { for t in 0..=top { for u in 0..=top {
+        n += 1;
+        if (h > 0) as u8 + (s > 0) as u8 + (t > 0) as u8 + (u > 0) as u8 >= 2 { nontrivial += 1; }
+        if let Err(obs) = run(h, s, t, u) { fails.push((format!("{h} http, {s} https, {t} tcp, {u} udp listeners"), obs)); if fails.len() >= 3 { break 'all; } }
+    } } } }
+    let fl: Vec<String> = fails.iter().map(|(i, o)| format!("{{\"input\": {:?}, \"observed\": {:?}}}", i, o)).collect();
+    println!("{{\"bound\": \"every listener set with 0..={top} http x https x tcp x udp listeners on real loopback sockets\", \"states\": {n}, \"pairs\": {n}, \"nontrivial_pairs\": {nontrivial}, \"failures\": [{}]}}", fl.join(", "));
 }
